@@ -288,6 +288,7 @@ func genC04Message(rt *rapid.T, st *c04State) (topic string, data []byte, desc s
 	var trailing []byte
 	unknownAny := false
 	swapType := false
+	var nonGossip proto.Message // a registered protobuf type that is not a gossip message
 	for k := 0; k < nm; k++ {
 		l := fmt.Sprintf("m%d", k)
 		if !isShares && len(st.Stored) > 0 && rapid.IntRange(0, 2).Draw(rt, l+"orderBias") == 0 {
@@ -316,7 +317,7 @@ func genC04Message(rt *rapid.T, st *c04State) (topic string, data []byte, desc s
 			}
 			continue
 		}
-		kind := rapid.SampledFrom([]string{"instance", "eon", "sender", "sender", "sender", "count0", "countMax1", "identity", "swap", "swap", "swap", "swap", "dup", "blob-other-keyper", "blob-other-identity", "blob-foreign", "blob-trunc", "blob-trunc", "blob-trunc", "blob-infinity", "blob-random", "swap-type", "version", "unknown-any", "trailing"}).Draw(rt, l)
+		kind := rapid.SampledFrom([]string{"instance", "eon", "sender", "sender", "sender", "count0", "countMax1", "identity", "swap", "swap", "swap", "swap", "dup", "blob-other-keyper", "blob-other-identity", "blob-foreign", "blob-trunc", "blob-trunc", "blob-trunc", "blob-infinity", "blob-random", "blob-empty", "blob-empty", "swap-type", "version", "unknown-any", "nongossip-any", "trailing"}).Draw(rt, l)
 		muts = append(muts, kind)
 		nItems := len(shares.Shares)
 		pick := func() int { return rapid.IntRange(0, max(nItems-1, 0)).Draw(rt, l+"item") }
@@ -387,6 +388,12 @@ func genC04Message(rt *rapid.T, st *c04State) (topic string, data []byte, desc s
 				i := pick()
 				setBlob(i, g1Infinity, g1Infinity)
 			}
+		case "blob-empty":
+			// absent or zero-length key / share bytes (nil and empty are the same on the wire)
+			if nItems > 0 {
+				i := pick()
+				setBlob(i, nil, nil)
+			}
 		case "blob-random":
 			if nItems > 0 {
 				i := pick()
@@ -399,6 +406,8 @@ func genC04Message(rt *rapid.T, st *c04State) (topic string, data []byte, desc s
 			envVersion = rapid.SampledFrom([]string{"", "0.0.0", envVersion + "x"}).Draw(rt, l+"v")
 		case "unknown-any":
 			unknownAny = true
+		case "nongossip-any":
+			nonGossip = rapid.SampledFrom([]proto.Message{&p2pmsg.Key{IdentityPreimage: []byte{1}, Key: []byte{2}}, &p2pmsg.KeyShare{}, &p2pmsg.Envelope{Version: p2pmsg.EnvelopeVersion}, &p2pmsg.TraceContext{TraceId: []byte{1}}, &anypb.Any{}}).Draw(rt, l+"ng")
 		case "trailing":
 			trailing = rapid.SliceOfN(rapid.Byte(), 1, 6).Draw(rt, l+"tr")
 		}
@@ -406,6 +415,9 @@ func genC04Message(rt *rapid.T, st *c04State) (topic string, data []byte, desc s
 	var inner proto.Message = keysMsg
 	if isShares != swapType {
 		inner = shares
+	}
+	if nonGossip != nil {
+		inner = nonGossip
 	}
 	anyMsg, err := anypb.New(inner)
 	if err != nil {
